@@ -142,7 +142,7 @@ Lemma failed_child_exact : forall c,
   child_ok reg TKFailed c = true -> exact_on failed_child c.
 Proof.
   intros [n a cs|s|] H; cbn [exact_on]; auto. intros r. cbn [child_ok] in H. unfold failed_child.
-  rewrite H. apply skip_children.
+  destruct (mem (snd n) sm_conditions); [rewrite H|]; apply skip_children.
 Qed.
 
 Lemma features_child_exact : forall c, exact_on features_child c.
@@ -361,7 +361,8 @@ Qed.
 Lemma failed_child_nonincr : nonincr failed_child.
 Proof.
   intros n a r r' H. unfold failed_child in H.
-  destruct (_ && _); [apply skip_len in H; lia | discriminate].
+  destruct (mem (snd n) sm_conditions);
+    [destruct (str_eqb (fst n) ns_stanzas); [|discriminate]|]; apply skip_len in H; lia.
 Qed.
 
 Lemma features_child_nonincr : nonincr features_child.
@@ -488,23 +489,55 @@ Qed.
 End ParserP.
 
 (* ---- attributes come from the element's own start tag ---- *)
+Definition attr_step (l : str) (acc : str) (x : attr) : str :=
+  if attr_accepted x && str_eqb (snd (fst x)) l then snd x else acc.
+
+Lemma get_attr_fold : forall l a, get_attr l a = fold_left (attr_step l) a [].
+Proof. reflexivity. Qed.
+
 Lemma get_attr_keep : forall l (a2 : list attr) acc,
-  (forall x : attr, In x a2 -> str_eqb (snd (fst x)) l = false) ->
-  fold_left (fun acc (x : attr) => if str_eqb (snd (fst x)) l then snd x else acc) a2 acc = acc.
+  (forall x : attr, In x a2 -> attr_accepted x && str_eqb (snd (fst x)) l = false) ->
+  fold_left (attr_step l) a2 acc = acc.
 Proof.
   intros l a2. induction a2 as [|x a2 IH]; intros acc H; [reflexivity|].
-  cbn [fold_left]. rewrite (H x (or_introl eq_refl)). apply IH.
+  cbn [fold_left]. unfold attr_step at 2. rewrite (H x (or_introl eq_refl)). apply IH.
   intros y Hy. apply H. now right.
 Qed.
 
+(* the value is that of the LAST accepted attribute with that local name *)
 Lemma get_attr_last : forall l (a1 : list attr) ns v (a2 : list attr),
-  (forall x : attr, In x a2 -> str_eqb (snd (fst x)) l = false) ->
+  attr_accepted ((ns, l), v) = true ->
+  (forall x : attr, In x a2 -> attr_accepted x && str_eqb (snd (fst x)) l = false) ->
   get_attr l (a1 ++ ((ns, l), v) :: a2) = v.
 Proof.
-  intros l a1 ns v a2 H. unfold get_attr. rewrite fold_left_app. cbn [fold_left fst snd].
-  rewrite str_eqb_refl. now apply get_attr_keep.
+  intros l a1 ns v a2 Hacc H. rewrite get_attr_fold, fold_left_app. cbn [fold_left].
+  unfold attr_step at 2. rewrite Hacc. cbn [fst snd]. rewrite str_eqb_refl. cbn [andb].
+  now apply get_attr_keep.
 Qed.
 
 Lemma get_attr_absent : forall l (a : list attr),
-  (forall x : attr, In x a -> str_eqb (snd (fst x)) l = false) -> get_attr l a = [].
-Proof. intros. unfold get_attr. now apply get_attr_keep. Qed.
+  (forall x : attr, In x a -> attr_accepted x && str_eqb (snd (fst x)) l = false) ->
+  get_attr l a = [].
+Proof. intros. rewrite get_attr_fold. now apply get_attr_keep. Qed.
+
+(* an attribute that is not accepted (namespace-qualified, other than xml:lang) never
+   matters, wherever it stands and whatever its local name and value *)
+Lemma get_attr_qualified : forall l (a1 : list attr) x (a2 : list attr),
+  attr_accepted x = false -> get_attr l (a1 ++ x :: a2) = get_attr l (a1 ++ a2).
+Proof.
+  intros l a1 x a2 H. rewrite !get_attr_fold, !fold_left_app. cbn [fold_left].
+  unfold attr_step at 2. rewrite H. reflexivity.
+Qed.
+
+Lemma get_attr_filter : forall l (a : list attr),
+  get_attr l a = get_attr l (filter attr_accepted a).
+Proof.
+  intros l a. rewrite !get_attr_fold. generalize (@nil N).
+  induction a as [|x a IH]; intros acc; [reflexivity|]. cbn [fold_left filter].
+  unfold attr_step at 2. destruct (attr_accepted x) eqn:E.
+  - cbn [fold_left]. unfold attr_step at 3. rewrite E. apply IH.
+  - cbn [andb]. apply IH.
+Qed.
+
+Lemma unqualified_accepted : forall l v, attr_accepted (([], l), v) = true.
+Proof. reflexivity. Qed.
